@@ -132,7 +132,7 @@ func (e *env) scan() (accs map[util.Uint160]account, supply *big.Int, problems [
 }
 
 func bigFromLE(v []byte) *big.Int {
-	return world.Int(stackitem.NewByteArray(v))
+	return world.LEInt(v)
 }
 
 func (e *env) chainBalance(h util.Uint160) *big.Int {
